@@ -4,11 +4,14 @@ CONSTANTS
   VALS = {"A", "B"}
   MaxOps = 4
   MaxArm = 2
+  MaxRArm = 1
+  EmptySkip = TRUE
   AgeReset = TRUE
 INVARIANT EffectIsPrefix
 INVARIANT HooksCover
 INVARIANT CommitRule
 INVARIANT NotStranded
 INVARIANT NoHang
+INVARIANT NoCrash
 INVARIANT NothingLost
 PROPERTY RefuseRule
